@@ -210,6 +210,20 @@ func (mc *modelCase) compare(c *fw.Case, m *refmodel.Model, rs *jsonschema.Resol
 	} else {
 		c.Count("verdict_invalid", 1)
 	}
+	if c.Idx%7 == 0 {
+		rec := map[string]any{"schema": json.RawMessage(mc.rootText), "instance": json.RawMessage(itext), "model_valid": want, "draft": map[refmodel.Draft]string{refmodel.D2020: "2020-12", refmodel.D7: "draft-07"}[mc.draft]}
+		if mc.baseURI != "" {
+			rec["base_uri"] = mc.baseURI
+		}
+		if len(mc.docs) > 0 {
+			d := map[string]any{}
+			for k, v := range mc.docs {
+				d[k] = json.RawMessage(v)
+			}
+			rec["docs"] = d
+		}
+		c.AuditSample(rec)
+	}
 	if got != want {
 		c.Violation(fmt.Sprintf("%s: Validate says valid=%v, the specification (reference model) says valid=%v", what, got, want),
 			mc.witness(map[string]any{"instance": json.RawMessage(itext), "library_valid": got, "model_valid": want, "py_checkable": true}))
